@@ -294,22 +294,50 @@ def process_chunk(task):
     plain = bool(opts.get('plain'))
     # 'sched': the model replays the order of shared accesses *logged by the real run*, so the real side runs first
     pre = {}
+    crashed = {}     # index -> text: the real code (or the adapter driving it) raised something no adapter expects
     for i, r in enumerate(reqs):
         if r[0] == 'sched':
             from . import real_rt
-            d = real_rt.rt_sched(r)
+            try:
+                d = real_rt.rt_sched(r)
+            except core.HarnessError:
+                raise
+            except Exception as e:  # noqa
+                crashed[i] = 'adapter-exception: running %s on the real code raised %s: %s' % (
+                    repr(r)[:200], type(e).__name__, str(e)[:200])
+                continue
             pre[i] = (('ok', d['final'], d['done'], tuple(d['saw'])),
                       'threads %d %s - - - %s' % (r[1], '-' if r[2] is None else r[2],
                                                   '.'.join(str(x) for x in d['model_schedule']) or '_'), d)
-    lines = [pre[i][1] if i in pre else (line(r) if not r[0].startswith('rt:') else 'validate _')
+    lines = [pre[i][1] if i in pre else (line(r) if not (r[0].startswith('rt:') or i in crashed) else 'validate _')
              for i, r in enumerate(reqs)]
     model_raw = core.run_driver(lines)
     for idx, (r, ml) in enumerate(zip(reqs, model_raw)):
+        if idx not in pre and idx not in crashed:
+            try:
+                ra = real(r, plain=plain)
+            except core.HarnessError:
+                raise
+            except Exception as e:  # noqa
+                crashed[idx] = 'adapter-exception: running %s on the real code raised %s: %s' % (
+                    line(r)[:300], type(e).__name__, str(e)[:200])
+        if idx in crashed:
+            # An exception class no adapter maps is by construction a disagreement with the model (whose error
+            # enumeration cannot produce it) and a concrete failing input; it is reported, not a harness crash.
+            res.n += 1
+            res.counters[r[0]] += 1
+            res.counters['real:unexpected-exception'] += 1
+            res.counters['mismatch'] += 1
+            if len(res.mismatches) < 20:
+                res.mismatches.append((r, ('crash', crashed[idx]), ml[:200]))
+            res.counters['oracle-fail'] += 1
+            res.counters['fail:adapter-exception'] += 1
+            if res.counters['fail:adapter-exception'] <= 3:
+                res.oracle_failures.append((r, ('crash', crashed[idx]), crashed[idx]))
+            continue
         if idx in pre:
             ra = pre[idx][0]
             r = r + (tuple(pre[idx][2]['events']),)
-        else:
-            ra = real(r, plain=plain)
         if r[0].startswith('rt:'):
             ma = ra
             lines[res.n] = 'rt-only ' + repr(r)[:200]
@@ -334,7 +362,13 @@ def process_chunk(task):
                 res.mismatches.append((r, ra, ma))
             res.counters['mismatch'] += 1
         if oracle is not None:
-            fails = oracle(r, ra, res.counters)
+            try:
+                fails = oracle(r, ra, res.counters)
+            except core.HarnessError:
+                raise
+            except Exception as e:  # noqa  — the oracle runs the real code too (calls, evaluation of annotations, ...)
+                fails = ['oracle-exception: checking the property on %s raised %s: %s' % (
+                    lines[res.n - 1][:300], type(e).__name__, str(e)[:200])]
             for f in fails:
                 res.counters['oracle-fail'] += 1
                 k = 'fail:' + f.split(':')[0]
